@@ -183,8 +183,11 @@ def run_case(case: Case):
             v = X.prove(hyps, S.bexpr(goal), timeout_s=case.timeout)
             ok = False
             if v.status == "refuted":
-                cargs = S.concretize(args, v.model or {})
-                ckw = S.concretize(kwargs, v.model or {})
+                if case.replay_args is not None:
+                    cargs, ckw = case.replay_args(v.model or {}, args, kwargs)
+                else:
+                    cargs = S.concretize(args, v.model or {})
+                    ckw = S.concretize(kwargs, v.model or {})
                 a2 = copy.deepcopy(cargs)
                 try:
                     outn = Outcome(result=(case.native_call or case.fn)(*a2, **copy.deepcopy(ckw)))
